@@ -55,7 +55,11 @@ func (m TagArg) Add(argType ArgType, val ...string) {
 
 func formatArgType(argType ArgType) ArgType {
 	t := string(argType)
-	return ArgType(strings.ToUpper(t[:1]) + t[1:])
+	//only the case of an ASCII first letter is ignored; upper-casing the first BYTE of anything else mangles the name
+	if c := t[0]; 'a' <= c && c <= 'z' {
+		return ArgType(string(c-'a'+'A') + t[1:])
+	}
+	return argType
 }
 
 func (m TagArg) Find(argType ArgType) ([]string, bool) {
